@@ -456,6 +456,12 @@ where
         let mut shift = -&jac_inv * &derivative;
         guess += &shift;
 
+        // The first step can already have converged (e.g. a solution at rest),
+        // the update below would then divide zero by zero
+        if shift.norm() <= self.tolerance.real() {
+            return Ok(guess);
+        }
+
         while n < 1000 {
             let derivative_last = derivative;
             derivative = g(
